@@ -38,8 +38,15 @@ var registry = map[string]entry{
 }
 
 func main() {
+	if len(os.Args) >= 3 && os.Args[1] == "replay" {
+		// evidence of a replay goes to a scratch location: it is not a check of the manifest
+		if os.Getenv("VERIF_EVIDENCE_DIR") == "" {
+			os.Setenv("VERIF_EVIDENCE_DIR", os.TempDir()+"/verif-replay-evidence")
+		}
+		os.Exit(vf.RunCheck("replay", "quick", "other", func(c *vf.Check) { checks.Replay(c, os.Args[2]) }))
+	}
 	if len(os.Args) < 3 || os.Args[1] != "check" {
-		fmt.Println("usage: verifctl check <ID> [--tier quick|thorough]")
+		fmt.Println("usage: verifctl check <ID> [--tier quick|thorough] | verifctl replay <file>")
 		os.Exit(2)
 	}
 	id := os.Args[2]
